@@ -503,3 +503,111 @@ def schedule_suite(run, scratch, seed, n, k_variants=3):
                     "'explicit update then read': returned values and states identical; rows before the clock compared "
                     "between consecutive steps; non-trivial = every variant",
             "samples": [{"name": v["name"], "ops": v["ops"][:10]} for v in variants[:2]]}
+
+
+# ---------------------------------------------------------------- C04: no look-ahead (perturbation pairs)
+def perturb_after(case, cut, rng):
+    """a copy of the backtest whose every supplied data value dated after row [cut] (0-based over the data dates)
+    is replaced by something else (still well-formed); dates, structure and everything up to the cut are untouched"""
+    import copy
+    from gen_engine import hx
+    d = copy.deepcopy(case)
+    tcut = case["dates"][cut]
+
+    def garble(x, kind):
+        if x == "nan":
+            return x if rng.random() < 0.7 else hx(rng.randint(1, 400) / 4.0)
+        v = float.fromhex(x)
+        if kind == "price":
+            return hx(max(0.25, v * rng.choice([0.5, 0.75, 1.25, 2.0]) + rng.randint(-8, 8) / 8.0))
+        if kind == "bool":
+            return hx(1.0 - v) if v in (0.0, 1.0) else hx(v + 1.0)
+        return hx(v * rng.choice([0.5, 2.0, -1.0]) + rng.randint(-4, 4) / 16.0)
+    for key, kind in (("prices", "price"), ("bidoffer", "pos"), ("coupons", "num"), ("cost_long", "pos"), ("cost_short", "pos")):
+        if d.get(key):
+            for col in d[key]:
+                col[1] = [x if r <= cut else (garble(x, "price") if kind == "price" else hx(abs(float.fromhex(garble(x, "num")))))
+                          for r, x in enumerate(col[1])]
+    for k, a in d.get("adata", []):
+        if a[0] == "frame":
+            idx = a[1]
+            for col in a[2]:
+                vals = set(col[1])
+                kind = "bool" if vals <= {hx(0.0), hx(1.0), "nan"} else "num"
+                col[1] = [x if idx[r] <= tcut else garble(x, kind) for r, x in enumerate(col[1])]
+    d["name"] = case["name"] + "_p%d" % cut
+    return d
+
+
+def lookahead_suite(run, scratch, seed, n):
+    import random
+    import backtest_corr
+    import gen_backtest
+    rng = random.Random(seed * 101 + 9)
+    cases = gen_backtest.gen_cases(seed + 11, n)
+    pairs = []
+    for c in cases:
+        cut = rng.randint(1, len(c["dates"]) - 2)
+        pairs.append((dict(c, dump_on_error=True), dict(perturb_after(c, cut, rng), dump_on_error=True), cut))
+    flat = [x for a, b, _ in pairs for x in (a, b)]
+    out = []
+    for i in range(0, len(flat), 120):
+        out.append(common.parse_dump(common.run_impl(scratch, "impl_backtest.py", json.dumps(flat[i:i + 120]))))
+    dumps = {}
+    for o in out:
+        dumps.update(o)
+    bad, compared, nontrivial = 0, 0, 0
+    for a, b, cut in pairs:
+        da, db = dumps.get(a["name"]), dumps.get(b["name"])
+        if not da or not db or not da["steps"] or not db["steps"]:
+            continue
+        sa, sb = da["steps"][-1]["state"], db["steps"][-1]["state"]
+        if not sa or not sb:
+            continue
+        lim = cut + 2          # rows 0..cut+1 of the run (row 0 is synthetic, row r+1 is data date r)
+        compared += 1
+        diff = None
+        def zero_prefix(toks):
+            return all((not tok_nonzero(t)) and t != "nan" for t in toks[:lim])
+        for key in sorted(set(sa) | set(sb)):
+            fld = key.split(" ")[1]
+            if fld.startswith("h_") or fld.startswith("hg_") or fld.startswith("ucol."):
+                if key not in sa or key not in sb:
+                    # a security created lazily after the cut exists in one run only: it must have no history before
+                    only = sa.get(key, sb.get(key))
+                    if fld.startswith("ucol.") or fld == "hg_prices" or zero_prefix(only):
+                        continue
+                    diff = (key, sa.get(key, [])[:lim], sb.get(key, [])[:lim])
+                    break
+                if sa[key][:lim] != sb[key][:lim]:
+                    diff = (key, sa[key][:lim], sb[key][:lim])
+                    break
+            elif key in sa and fld.startswith("trace.") and fld.endswith(".res") and sa[key][0] != "-" and int(sa[key][0]) < lim:
+                base = key[:-4]
+                for suffix in (".res", ".selected", ".weights", ".stat"):
+                    if sa.get(base + suffix) != sb.get(base + suffix):
+                        diff = (base + suffix, sa.get(base + suffix), sb.get(base + suffix))
+                        break
+                if diff:
+                    break
+        if any(x != y for k2 in sa if k2.endswith(" h_positions") for x, y in zip(sa[k2][:lim], [0] * lim) if tok_nonzero(x)):
+            nontrivial += 1
+        if diff:
+            bad += 1
+            if bad <= 2:
+                run.violation({"suite": "lookahead_pairs", "case": a, "perturbed_case": b, "cut_row": cut,
+                               "first_difference": {"key": diff[0], "original": diff[1], "perturbed": diff[2]}},
+                              "results up to data date %d of %s change when only later data is changed (%s)"
+                              % (cut, a["name"], diff[0]))
+    return {"evaluations": 2 * len(pairs), "distinct_nontrivial": nontrivial, "traces_validated_against_impl": compared,
+            "oracle_failures": bad,
+            "rule": "each generated backtest is run twice on the implementation: as is, and with every price, signal, stat, "
+                    "target weight, notional, bid/offer, coupon and cost value dated after a random cut replaced; all history "
+                    "rows and all per-run temp traces up to the cut must be identical token for token; non-trivial = pairs with "
+                    "an open position before the cut",
+            "samples": [{"name": a["name"], "cut_row": cut, "tree": a["tree"]} for a, b, cut in pairs[:2]]}
+
+
+def tok_nonzero(t):
+    v = common.tok_val(t)
+    return isinstance(v, float) and v != 0.0
